@@ -176,6 +176,16 @@ type tMapNullVal struct {
 	MS map[int64]*string `vgirpc:"ms"`
 }
 
+// tNestedColl: collections inside collections, with nullable items, so child
+// arrays are addressed at offsets other than zero.
+type tNestedColl struct {
+	LM  []map[string]*int64           `vgirpc:"lm"`
+	MM  map[string]map[string]*string `vgirpc:"mm"`
+	ML  map[string][]*int64           `vgirpc:"ml"`
+	LMS []map[int64]string            `vgirpc:"lms"`
+	LLM [][]map[string]*int64         `vgirpc:"llm"`
+}
+
 type tLeaf struct {
 	Name string    `vgirpc:"name"`
 	N    *int64    `vgirpc:"n"`
@@ -419,6 +429,7 @@ var family = []*famEntry{
 	entry[tMaps]("maps", false),
 	entry[tMapPtr]("mapptr", true),
 	entry[tMapNullVal]("mapnullval", true),
+	entry[tNestedColl]("nestedcoll", true),
 	entry[tNested]("nested", false),
 	entry[tMixed]("mixed", false),
 	entry[tSingle]("single", false),
